@@ -554,7 +554,16 @@ func vfC17CheckOwn(x *venum.X, who, point string, src vfC17Source, custom, stand
 	return fmt.Sprintf("%s/%v/%d", codec, stampCustom, rec.Code)
 }
 
-var vfC17Levels = venum.QT([]int{-1, 0, 1, 3, 11}, []int{-1, 0, 1, 2, 3, 4, 9, 11, 19})
+// The lowest and the highest level SetCompressionLevel accepts (1 and 4 with
+// klauspost) are in BOTH tiers, plus "off" and one rejected level; the cheap
+// advertised-vs-produced space walks EVERY level (vfC17AllLevels) and decodes what
+// each codec produces there, so a per-level codec mapping that breaks at a single
+// accepted level is seen at quick tier too.
+var vfC17Levels = venum.QT([]int{-1, 0, 1, 4, 11}, []int{-1, 0, 1, 2, 3, 4, 9, 11, 19})
+
+// vfC17AllLevels: the advertised-vs-produced space is cheap, so it walks every
+// integer level from -1 to 12 plus the usual zstd maxima at both tiers.
+var vfC17AllLevels = []int{-1, 0, 1, 2, 3, 4, 5, 6, 7, 8, 9, 10, 11, 12, 19, 22}
 
 func TestVerif_C17(t *testing.T) {
 	venum.Begin("C17")
@@ -718,12 +727,12 @@ func TestVerif_C17(t *testing.T) {
 	}
 	big := sources[4]
 	venum.Explore(t, venum.Cfg{Name: "advertised-vs-produced"}, func(x *venum.X) {
-		levelIdx := x.Choose(len(vfC17Levels)+1, "level")
+		levelIdx := x.Choose(len(vfC17AllLevels)+1, "level")
 		k := kinds[x.Choose(len(kinds), "response-kind")]
 		viaCustom := x.Bool("probe-on-custom-header")
 		level, setLevel := 0, false
-		if levelIdx < len(vfC17Levels) {
-			level, setLevel = vfC17Levels[levelIdx], true
+		if levelIdx < len(vfC17AllLevels) {
+			level, setLevel = vfC17AllLevels[levelIdx], true
 		}
 		lv := "level-default"
 		if setLevel {
@@ -743,7 +752,11 @@ func TestVerif_C17(t *testing.T) {
 				continue
 			}
 			dec, derr := vfC17Decode(st, body)
-			if st != c || derr != nil || !bytes.Equal(dec, raw) {
+			if st == c && (derr != nil || !bytes.Equal(dec, raw)) {
+				x.Failf("C17:advertised:stamped-body-not-decodable:"+c+":"+lv, "level %d: asked for %q only, response is stamped %q but its %d-byte body does not decode to the %d-byte uncompressed body (%v)", level, c, st, len(body), len(raw), derr)
+				continue
+			}
+			if st != c {
 				x.Failf("C17:advertised:probe-wrong-codec:"+c, "%s: asked for %q only, got stamp %q, decodes=%v", lv, c, st, derr == nil)
 				continue
 			}
